@@ -391,7 +391,56 @@ def rule_apply(ctx):
         r.violation(key, C.loc(sl, calls[0]), f"SliceFinder models `{modelled}` but the indices are "
                     f"removed from {sorted(applied)}: with reslice=True / inplace=False these are "
                     "different trees and the targets hold for the wrong one")
+    # (seed C07_12) every driver that accepts `allow_outer` hands it to every slicing it delegates: a delegation is
+    # a call, or a dict of options, that carries a `target_size` / `target_slices` / `target_overhead`
+    for f in tree_funcs_all(ctx):
+        if "allow_outer" not in f.params:
+            continue
+        la = ctx.r.local_assignments(f)
+        sites = []
+        for n in walk_local(f.node):
+            keys = {}
+            if isinstance(n, ast.Call):
+                for kx in n.keywords:
+                    if kx.arg is not None:
+                        keys[kx.arg] = kx.value
+                    elif isinstance(kx.value, ast.Name):      # **opts with a literal dict behind it
+                        for v in la.get(kx.value.id, []):
+                            if isinstance(v, ast.Dict):
+                                for k_, v_ in zip(v.keys, v.values):
+                                    if isinstance(k_, ast.Constant):
+                                        keys[k_.value] = v_
+            elif isinstance(n, ast.Dict):
+                for k_, v_ in zip(n.keys, n.values):
+                    if isinstance(k_, ast.Constant):
+                        keys[k_.value] = v_
+                    elif k_ is None and isinstance(v_, ast.Name):       # {**opts, ...}
+                        for v in la.get(v_.id, []):
+                            if isinstance(v, ast.Dict):
+                                for k2, v2 in zip(v.keys, v.values):
+                                    if isinstance(k2, ast.Constant):
+                                        keys[k2.value] = v2
+            if keys and any(t in keys for t in ("target_size", "target_slices", "target_overhead")):
+                # the dict that only *defines* hoisted options is judged where it is expanded
+                sites.append((n, keys))
+        for n, keys in sites:
+            key = ctx.key(f, "C07-APPLY", f"forward:{len([i for i in r.instances if f.qual in i.construct])}")
+            v = keys.get("allow_outer")
+            if v is not None and "allow_outer" in {x.id for x in ast.walk(v) if isinstance(x, ast.Name)}:
+                r.ok(key, C.loc(f, n), "the delegated slicing receives this call's allow_outer")
+            else:
+                r.violation(key, C.loc(f, n), f"`{C.unparse(n, 60)}` delegates a slicing search (it carries a target) without this "
+                            f"function's `allow_outer`: the search runs with the default (everything allowed) and slices output "
+                            f"indices although the caller disallowed it")
     return r
+
+
+def tree_funcs_all(ctx):
+    tc = tree_class(ctx)
+    out = list(tc.methods.values())
+    for c in tc.all_subclasses():
+        out += [m_ for m_ in c.methods.values() if m_ not in out]
+    return out
 
 
 def rule_model(ctx):
